@@ -115,6 +115,14 @@ def reference_E(cid, n, keys):
         _REF[k] = cipher_obj(cid, n, keys).enc
     return _REF[k]
 
+def reference_D(cid, n, keys):
+    """inverse block function for the independent reference decryption"""
+    k = ('D', cid, n, tuple(keys))
+    if k not in _REF:
+        if len(_REF) > 64: _REF.clear()
+        _REF[k] = cipher_obj(cid, n, keys).dec
+    return _REF[k]
+
 def key_ok(cid, n, keys):
     """keys the cipher (toy: the toy of block length n) is defined for"""
     if cid in TOYS: return len(keys) == 1 and len(keys[0]) == n
@@ -220,6 +228,12 @@ def r_cts_cbc(E, n, iv, M):
     if d == n: return b''.join(C)
     return b''.join(C[:-2] + [C[-1], C[-2][:d]])
 
+def r_ecb_dec(D, n, C): return b''.join(D(b) for b in r_blocks(n, C))
+def r_cbc_dec(D, n, C):
+    """SP 800-38A 6.2 decryption, left to right: P_j = CIPH^-1(C_j) xor C_{j-1}; C_0 = the first block of the input"""
+    B = r_blocks(n, C)
+    return b''.join(r_xor(D(B[j]), B[j - 1]) for j in range(1, len(B)))
+
 def unpad_candidate(pad, n, P):
     """the message M with r_pad(pad, n, M) == P, or None"""
     if not P: return None
@@ -277,6 +291,19 @@ def check_impl(line, res):
         if len(M) != len(msg) - (n if mode == 'CTS_CBC' else 0): return bad('plaintext length %d' % len(M))
         back = make_mode(mode, cipher_obj(cid, n, key), msg[:n] if mode == 'CTS_CBC' else None, pad).enc(M)
         return None if back == msg else bad('enc(dec(C)) = %s' % hx(back))
+    if verb == 'dec' and mode in ('ECB', 'CBC'):
+        # a raw ciphertext of whole blocks (CBC: behind an IV block): the plaintext blocks are CIPH^-1(C_j) [xor C_{j-1}] block by
+        # block, whatever blocks the ciphertext repeats; then the padding is taken off (PKCS#7 / X9.23: or refused)
+        first = n if mode == 'CBC' else 0
+        if pad not in PADS or not key_ok(cid, n, key) or len(msg) % n or len(msg) < first + n: return None
+        if (mode == 'CBC') != (iv is not None and len(iv) == n): return None
+        D = reference_D(cid, n, key)
+        P = r_cbc_dec(D, n, msg) if mode == 'CBC' else r_ecb_dec(D, n, msg)
+        if pad == 'nopadding': return None if res == hx(P) else bad('plaintext blocks are %s, got %s' % (hx(P), res))
+        M = unpad_candidate(pad, n, P)
+        if M is not None: return None if res == hx(M) else bad('the ciphertext decrypts to the padded string of %s, got %s' % (hx(M), res))
+        if pad in ('pkcs7', 'X923'): return None if res == 'ERR' else bad('the ciphertext does not decrypt to a padded string, got %s' % res)
+        return None
     if verb == 'xd':
         # dec(enc_nopadding(P)) = unpad(P): the message whose padded string is P, an exception when there is none
         if mode not in ('ECB', 'CBC') or pad == 'nopadding' or not in_domain(mode, n, key, iv, 'nopadding', msg, cid): return None
@@ -618,6 +645,121 @@ def threefish_cases(tier, rng, keys=None):
                 yield rline(mode, 'THREEFISH', n, ks, iv, 'nopadding', 'er', rb(rng, L)), 'real-malformed/out-of-domain-length'
 
 
+# ---------------------------------------------------------------------------------------------
+# repeated blocks: one block value at several positions of a ciphertext / of a message.  A per-block shortcut in a mode (a
+# memo keyed by the block, a "same as the previous block" test) is invisible on random data - two equal n-byte blocks never
+# meet - and on ordinary messages; the ciphertext of a CHAINED mode repeats a block only for a message crafted with the key
+# (C_2 = C_1 needs M_2 = M_1 ^ IV ^ E(M_1 ^ IV)).  Patterns: equal letters = equal blocks, I = the IV block.
+REP_PATTERNS = ['AA', 'ABA', 'AAA', 'AAB', 'ABB', 'I', 'ABAB', 'II', 'AI', 'IA', 'AIA', 'IAI', 'AAAA', 'ABCA']
+
+def sym_values(rng, n, pat, iv):
+    vals = {'I': iv}
+    for ch in pat:
+        while ch not in vals:
+            v = rb(rng, n)
+            if v not in vals.values(): vals[ch] = v
+    return vals
+
+def valid_last(pad, n, rng, q):
+    """a last plaintext block carrying q bytes of well-formed padding"""
+    head = rb(rng, n - q)
+    if pad == 'pkcs7': return head + bytes([q]) * q
+    if pad == 'X923': return head + bytes(q - 1) + bytes([q])
+    return head + b'\x80' + bytes(q - 1)
+
+def craft_cbc(E, D, n, iv, pat, rng):
+    """message blocks whose CBC ciphertext blocks follow the pattern: C_i = C_j needs M_i = M_j ^ C_{j-1} ^ C_{i-1} (for 'AA' this
+    is M_2 = M_1 ^ IV ^ E(M_1 ^ IV)), built with the cipher's own enc; C_i = IV needs CIPH^-1(IV)"""
+    M, C, pos = [], [iv], {}
+    for i, ch in enumerate(pat):
+        prev = C[-1]
+        if ch == 'I': m, c = r_xor(D(iv), prev), iv
+        elif ch in pos: j = pos[ch]; m, c = r_xor(r_xor(M[j], C[j]), prev), C[j + 1]
+        else: m = rb(rng, n); c = E(r_xor(m, prev)); pos[ch] = i
+        M.append(m); C.append(c)
+    return M
+
+def pick_patterns(thin, j, chained):
+    pats = [p for p in REP_PATTERNS if chained or 'I' not in p]
+    if thin: pats = [p for i, p in enumerate(pats) if p == 'AA' or (i + j) % thin == 0]
+    return pats
+
+def repeat_cases(tier, rng, mk, cid, n, ks, ktag, thin=0, search=True, off=0, modes=MODES):
+    """mk = mline / rline.  (i) `dec` of RAW ciphertexts with repeated blocks (the IV block among them), without padding and with
+    paddings whose last plaintext block is well-formed by construction (a fresh last block behind the pattern; the last block of
+    the pattern itself: its predecessor is solved for, or - when the two are the same block - the block is searched for);
+    (ii) `er` of messages crafted so that the CIPHERTEXT follows the pattern, and of messages that repeat PLAINTEXT blocks"""
+    obj = cipher_obj(cid, n, ks)
+    E, D = obj.enc, obj.dec
+    j, found = off, {}
+    for mode in modes:
+        chained = mode in ('CBC', 'CTS_CBC')
+        for pad in admissible(mode):
+            j += 1
+            for pat in pick_patterns(thin, j, chained):
+                iv = rb(rng, n) if mode in ('CBC', 'CTS_CBC', 'CTR') else None
+                vals = sym_values(rng, n, pat, iv)
+                blocks = [vals[ch] for ch in pat]
+                head = [iv] if chained else []
+                tag = '%s/%s/%s/%s' % ('toy' if cid in TOYS else ktag, mode, pad, pat)
+                join = lambda L: b''.join(L)
+                # ---- (i) raw ciphertexts
+                if pad == 'nopadding':
+                    yield mk(mode, cid, n, ks, iv, pad, 'dec', join(head + blocks)), 'repeat-dec/' + tag
+                    if mode in ('CTS_ECB', 'CTS_CBC', 'CTR'):
+                        yield mk(mode, cid, n, ks, iv, pad, 'dec', join(head + blocks) + rb(rng, rng.randrange(1, n))), 'repeat-dec/' + tag + '+partial'
+                else:
+                    V = valid_last(pad, n, rng, rng.choice([1, 2, n]))
+                    L = E(r_xor(V, blocks[-1])) if chained else E(V)
+                    yield mk(mode, cid, n, ks, iv, pad, 'dec', join(head + blocks + [L])), 'repeat-dec/' + tag + '+padblock'
+                    V = valid_last(pad, n, rng, rng.choice([1, 1, 3, n]))
+                    lastc, prevc = pat[-1], (pat[-2] if len(pat) > 1 else 'I')
+                    ok = True
+                    if not chained: vals[lastc] = E(V)
+                    elif lastc != prevc: vals[prevc] = r_xor(D(vals[lastc]), V)
+                    else:
+                        # P_last = D(X) ^ X: look for a block X that makes its last byte a one-byte padding
+                        # (one search per cipher object and padding byte; the block found is used for every such pattern)
+                        want = 0x80 if pad == 'bitpadding' else 1
+                        if want not in found:
+                            found[want] = None
+                            for _ in range(6000 if search else 0):
+                                v = rb(rng, n)
+                                if D(v)[-1] ^ v[-1] == want: found[want] = v; break
+                        ok = found[want] is not None and found[want] not in vals.values()
+                        if ok: vals[lastc] = found[want]
+                    if ok:
+                        iv2 = vals['I']
+                        yield (mk(mode, cid, n, ks, iv2, pad, 'dec', join(([iv2] if chained else []) + [vals[ch] for ch in pat])),
+                               'repeat-dec/' + tag + '/last-is-padded')
+                # ---- (ii) crafted messages
+                tails = [b''] if pad == 'nopadding' and mode in ('ECB', 'CBC') else [b'', rb(rng, rng.randrange(1, n))]
+                if mode in ('ECB', 'CBC') and pad != 'nopadding' and not thin: tails.append(rb(rng, n - 1))
+                if chained: Mc = craft_cbc(E, D, n, iv, pat, rng)
+                elif mode == 'CTR': Mc = [r_xor(vals[ch], E(r_counter(n, iv, i))) for i, ch in enumerate(pat)]
+                else: Mc = None
+                for t in tails:
+                    if Mc is not None:
+                        yield mk(mode, cid, n, ks, iv, pad, 'er', join(Mc) + t), 'repeat-ciphertext/' + tag
+                    yield mk(mode, cid, n, ks, iv, pad, 'er', join(blocks) + t), 'repeat-plaintext/' + tag
+
+def repeat_toy_cases(tier, rng, sizes):
+    for n in sizes:
+        for cid in ('rot', 'aff'):
+            yield from repeat_cases(tier, rng, lambda mode, cid, n, ks, iv, pad, verb, msg: mline(mode, cid, n, ks[0], iv, pad, verb, msg),
+                                    cid, n, [rb(rng, n)], 'toy')
+
+def repeat_real_cases(tier, rng):
+    quick = tier == 'quick'
+    keys = [('AES', 16, [rb(rng, 16)], 'AES-128'), ('DES', 8, [rb(rng, 8)], 'DES'), ('THREEFISH', 32, [rb(rng, 32), rb(rng, 16)], 'Threefish-256')]
+    if not quick:
+        keys += [('AES', 16, [rb(rng, 32)], 'AES-256'), ('TDEA', 8, [rb(rng, 24)], 'TDEA-string24'), ('SERPENT', 16, [rb(rng, 16)], 'Serpent-128'),
+                 ('THREEFISH', 64, [rb(rng, 64), rb(rng, 16)], 'Threefish-512')]
+    for i, (cid, n, ks, ktag) in enumerate(keys):
+        slow = quick and cid == 'AES'            # the Lean AES model costs ~25 ms per line: the chained modes, fewer patterns
+        yield from repeat_cases(tier, rng, rline, cid, n, ks, ktag, thin=(5 if slow else 3) if quick else 0, search=cid == 'THREEFISH' or not quick,
+                                off=i, modes=('CBC', 'CTS_CBC') if slow else MODES)
+
 REAL = []         # ciphers without a Lean model (summary lines `modert`): none any more
 
 def real_cases(tier, rng):
@@ -699,6 +841,8 @@ def cases(tier, rng):
             yield from real_mode_cases('quick', rng)
             yield from real_dec_cases('thorough', rng, real_keys('quick', rng))
             yield from threefish_cases('quick', rng)
+            yield from repeat_toy_cases('quick', rng, [n])
+            yield from repeat_real_cases('quick', rng)
         return
     sizes = [8, 16, 32, 64, 128]
     yield from toy_cases(tier, rng, sizes)
@@ -707,9 +851,10 @@ def cases(tier, rng):
     yield from malformed_cases(tier, rng)
     yield from twice_cases(tier, rng)
     yield from xd_toy_cases(tier, rng)
+    yield from repeat_toy_cases(tier, rng, [8, 16, 32] if tier == 'quick' else sizes)
     yield from random_cases(tier, rng, 4000 if tier == 'quick' else 60000)
     real = (list(real_mode_cases(tier, rng)) + list(real_dec_cases(tier, rng)) + list(real_malformed_cases(tier, rng)) + list(real_cases(tier, rng))
-            + list(threefish_cases(tier, rng)))
+            + list(threefish_cases(tier, rng)) + list(repeat_real_cases(tier, rng)))
     rng.shuffle(real)              # lines of very different cost: mix them so that the worker chunks are balanced
     yield from real
     if tier == 'thorough':
